@@ -957,7 +957,11 @@ def _exec_stiffness(case, res, log, probe, violation, check_state, check_round_t
             check_round_trip(m, "stiff1")
     if spec["zoo"] == "Z8":
         # independent rigid twin: AeroPoint on the undeformed mesh with the same geometry and flow
-        r = zoo.build({"zoo": "Z8R", "ny": spec.get("ny", 5), "nx": spec.get("nx", 2)})
+        twin = {"zoo": "Z8R", "ny": spec.get("ny", 5), "nx": spec.get("nx", 2)}
+        for k_ in ("surf_opts", "mesh_opts", "wave"):
+            if spec.get(k_) is not None:
+                twin[k_] = spec[k_]  # the twin shares every option of the surface, it only lacks the structure
+        r = zoo.build(twin)
         r.set_point({k: v for k, v in point.items() if k in [i.name for i in r.inputs]})
         with _quiet():
             r.prob.run_model()
